@@ -203,6 +203,13 @@ class _randobj:
                             if not f.startswith("__") and not f.startswith("_int_"):
                                 fo = getattr(self, f)
                             
+                                if hasattr(fo, "_ro_int") and fo._ro_int.ctor_level > 0:
+                                    # A reference to an object whose constructor is 
+                                    # still running (the parent handing itself to its
+                                    # child): not a field of this object, and its model
+                                    # cannot be built yet
+                                    continue
+                            
                                 if hasattr(fo, "_int_field_info"):
                                     if fo._int_field_info.model is None:
                                         fo._int_field_info.model = fo.build_field_model(f)
